@@ -13,8 +13,14 @@ def main():
     os.chdir(HERE)
     only = sys.argv[1:]
     out = {}
-    for d in sorted(os.listdir('seeded')):
-        if not re.match(r'^C\d\d-\d+$', d) or (only and d not in only):
+    def round_of(d):
+        try:
+            return json.load(open(os.path.join('seeded', d, 'meta.json'))).get('round', 1)
+        except Exception:
+            return 1
+    path = os.path.join(HERE, 'seeded', 'RESULTS.json')
+    for d in sorted((x for x in os.listdir('seeded') if re.match(r'^C\d\d-\d+$', x)), key=lambda x: (round_of(x), x)):
+        if only and d not in only:
             continue
         prop = d.split('-')[0]
         for chk in [prop] + EXTRA.get(d, []):
@@ -34,6 +40,14 @@ def main():
             out['%s/%s' % (d, chk)] = {'exit': rc, 'violation_lines': len(viol), 'seconds': round(time.time() - t0),
                                      'first': viol[0].split('#', 1)[-1].strip()[:200] if viol else ''}
             print(d, chk, 'exit', rc, 'violations', len(viol), flush=True)
+        # results are kept as they come (a long sweep may be cut short)
+        try:
+            cur = json.load(open(path)) if os.path.exists(path) else {}
+        except ValueError:
+            cur = {}
+        cur.update(out)
+        with open(path, 'w') as fh:
+            json.dump(cur, fh, indent=1, sort_keys=True)
     path = os.path.join(HERE, 'seeded', 'RESULTS.json')
     old = {}
     if only and os.path.exists(path):
